@@ -482,6 +482,16 @@ func c17EditRegions(r *an.Run) {
 		case isGroupEdge(cmp.X, "Pos") && isNodeEdge(cmp.Y, "End") && op == ">=", isNodeEdge(cmp.X, "End") && isGroupEdge(cmp.Y, "Pos") && op == "<=":
 			return "after"
 		}
+		// the same two edges compared strictly: a group that touches the node (a comment glued to its last
+		// token, or ending where it starts) is then neither before nor after it, and the region of a changed
+		// neighbour swallows it
+		strictBefore := isGroupEdge(cmp.X, "End") && isNodeEdge(cmp.Y, "Pos") && op == "<" || isNodeEdge(cmp.X, "Pos") && isGroupEdge(cmp.Y, "End") && op == ">"
+		strictAfter := isGroupEdge(cmp.X, "Pos") && isNodeEdge(cmp.Y, "End") && op == ">" || isNodeEdge(cmp.X, "End") && isGroupEdge(cmp.Y, "Pos") && op == "<"
+		if strictBefore || strictAfter {
+			side := map[bool]string{true: "before", false: "after"}[strictBefore]
+			r.Fail(short(g)+"|classification|touching-group-"+side, cmp.Pos(), "a comment group that touches the node counts as lying %s it (the comparison includes equality): with a strict comparison a comment glued to the node belongs to nobody and is deleted with a changed neighbour", side)
+			return side
+		}
 		return ""
 	}
 	hdr := loop.Header
